@@ -16,6 +16,12 @@ def main():
     prop, tier = sys.argv[1], sys.argv[2]
     seed = int(os.environ.get("VERIF_SEED", "0") or 0)
     t0 = time.time()
+    cov_out = os.environ.get("A816_COV")
+    if cov_out:
+        import atexit
+        import covmap
+        covmap.start(core.REPO)
+        atexit.register(covmap.dump, cov_out, core.REPO)
     try:
         build = core.prepare(prop, thorough=(tier == "thorough"))
         mod = importlib.import_module(f"props.{prop.lower()}")
